@@ -296,6 +296,10 @@ def run_history_unit(unit):
     for pr in core.explore(fn, max_paths=400000):
         log.path(pr)
         n += 1
+        if isinstance(pr.error, (AttributeError, TypeError)) and 'Content' in str(pr.error):
+            # the client processes the TEXT of the input (this world keeps file contents opaque): the real-files units decide such code
+            log['inconclusive'].append({'obligation': 'history world', 'why': 'client code operates on the text of the input file: ' + str(pr.error)[:100]})
+            break
         if pr.error is not None:
             raise pr.error
         if pr.aborted:
@@ -467,11 +471,16 @@ def units(tier, seed):
             us.append({'harness': 'history', 'client': 'geophires', 'H': H, 'caching': caching})
         us.append({'harness': 'history', 'client': 'hip', 'H': H, 'caching': False})
     us.append({'harness': 'dummy'})
+    from . import c08files
+    us += c08files.units(tier)
     return us
 
 
 def run_unit(unit):
-    if unit['harness'] == 'history':
+    if unit['harness'] == 'client-real-files':
+        from . import c08files
+        yield from c08files.run_unit(unit)
+    elif unit['harness'] == 'history':
         yield from run_history_unit(unit)
     elif unit['harness'] == 'fresh':
         yield from run_fresh(unit)
